@@ -1206,6 +1206,60 @@ theorem so3JlInv_neg_mulVec (eps : ℝ) (x : Vec3 ℝ) (h0 : 0 ≤ eps) (h : eps
   exact this
 
 
+/-! ## cross products, `polyK·t − t` -/
+
+theorem Vec3.cross_normSq_le (a b : Vec3 ℝ) : (a.cross b).normSq ≤ a.normSq * b.normSq := by
+  have : a.normSq * b.normSq - (a.cross b).normSq = (a.dot b) ^ 2 := by lie_unfold; ring
+  nlinarith [sq_nonneg (a.dot b)]
+theorem hat_mulVec (x t : Vec3 ℝ) : (Mat3.hat x).mulVec t = x.cross t := by ext <;> lie_unfold <;> ring
+theorem polyK_mulVec_sub (a b : ℝ) (x t : Vec3 ℝ) :
+    ((polyK 1 a b x).mulVec t).sub t = ((x.cross t).smul a).add ((x.cross (x.cross t)).smul b) := by
+  unfold polyK; ext <;> lie_unfold <;> ring
+theorem Vec3.add_normSq_le (u w : Vec3 ℝ) : (u.add w).normSq ≤ 2 * u.normSq + 2 * w.normSq := by
+  lie_unfold
+  nlinarith [sq_nonneg (u.x - w.x), sq_nonneg (u.y - w.y), sq_nonneg (u.z - w.z)]
+
+
+/-! ## facts about `List.map` used as the model of batching / call histories (hold for any `f`; moved out of the property file) -/
+
+/-- the result for an item does not depend on the other items of the batch (whatever their regimes) -/
+theorem batch_itemwise {β γ : Type} (f : β → γ) (pre post : List β) (x : β) :
+    (batchOp f (pre ++ x :: post))[pre.length]? = some (f x) := by
+  unfold batchOp
+  simp
+
+/-- a batched op returns one result per item -/
+theorem batch_length {β γ : Type} (f : β → γ) (xs : List β) : (batchOp f xs).length = xs.length := by
+  unfold batchOp; simp
+
+/-- the result of a call does not depend on the calls made before or after it — including calls with another `eps`
+(another dtype) -/
+theorem calls_history_independent {β γ : Type} (f : ℝ → β → γ) (pre post : List (ℝ × β)) (eps : ℝ) (x : β) :
+    (runCalls f (pre ++ (eps, x) :: post))[pre.length]? = some (f eps x) := by
+  unfold runCalls
+  simp
+
+/-- instances for the property's maps: `Log` of an item inside any (mixed-regime) batch is `Log` of the item -/
+theorem Sim3_log_batch_itemwise (eps : ℝ) (pre post : List (Sim3 ℝ)) (X : Sim3 ℝ) :
+    (batchOp (Sim3Log eps) (pre ++ X :: post))[pre.length]? = some (Sim3Log eps X) := batch_itemwise _ pre post X
+theorem sim3_exp_log_history_independent (pre post : List (ℝ × sim3 ℝ)) (eps : ℝ) (x : sim3 ℝ) :
+    (runCalls sim3LogExp (pre ++ (eps, x) :: post))[pre.length]? = some (sim3LogExp eps x) :=
+  calls_history_independent _ pre post eps x
+
+/-- atomicity of a refused call: in a history where some calls fail (`Except.error`, e.g. `Log` of an algebra element), every
+other call returns what it returns in the history without the failed ones — instance of `calls_history_independent` with
+`Except` results (the model has no state a failing call could leave behind; the code is tested by the oracle `atomic`). -/
+theorem calls_atomic_on_error {β γ : Type} (f : ℝ → β → Except String γ) (pre post : List (ℝ × β)) (bad : ℝ × β)
+    (eps : ℝ) (x : β) :
+    (runCalls f (pre ++ bad :: (eps, x) :: post))[pre.length + 1]? = (runCalls f (pre ++ (eps, x) :: post))[pre.length]? := by
+  unfold runCalls
+  simp
+
+
+/-- summary of what was proved for regime 3 before `SO3_exp_log_regime3` (kept for reference; superseded) -/
+theorem SO3Log_r3_summary (eps : ℝ) (q : Quat ℝ) (hq : q.normSq = 1) (he : eps ≤ 1 / 2)
+    (h1 : ¬ eps < q.vec.norm) : (SO3Log eps q).norm ≤ 2 := SO3Log_r3_norm_le eps q hq he h1
+
 /-! ## fixed sample values used by the non-vacuity examples of `Proofs/Props/C02.lean` -/
 namespace C02Ex
 
